@@ -45,6 +45,9 @@ func oracle(c Case) *ev.Verdict {
 		e := o.Escapes[0]
 		return ev.V("panic:"+e.Op+":"+e.Frame, "%s panicked: %s\n%s", e.Op, e.Value, tp)
 	}
+	if o.Again != "" {
+		return ev.V("second-call-differs:"+strings.SplitN(o.Again, " ", 2)[0], "%s\n%s", o.Again, tp)
+	}
 	if o.Check != nil || len(o.AddErr) > 0 || len(o.RuleErr) > 0 {
 		ev.Class("models", "rejected (nothing asserted)")
 		return nil
